@@ -45,7 +45,8 @@ EPS = 0.001
 
 KINDS = ["match_result", "match_null", "match_error", "match_scalar", "same_id_request",
          "same_id_request_params", "other_response", "other_request", "notification",
-         "progress", "batch_with_match", "other_error", "int_twin", "match_result2"]
+         "progress", "batch_with_match", "other_error", "int_twin", "match_result2",
+         "batch_of_one_match", "batch_of_one_error", "batch_empty"]
 
 
 # ids of distractor responses are drawn from the ids that other calls of the same process use as their own
@@ -84,6 +85,12 @@ def _wire(kind: str, rid: Any, n: int) -> Any:
     if kind == "batch_with_match":
         return [{"jsonrpc": "2.0", "id": rid, "result": {"tag": f"in-batch-{n}"}},
                 {"jsonrpc": "2.0", "id": other, "result": {}}]
+    if kind == "batch_of_one_match":
+        return [{"jsonrpc": "2.0", "id": rid, "result": {"tag": f"single-member-batch-{n}"}}]
+    if kind == "batch_of_one_error":
+        return [{"jsonrpc": "2.0", "id": rid, "error": {"code": -32601, "message": f"batched-{n}"}}]
+    if kind == "batch_empty":
+        return []
     if kind == "int_twin":
         # same digits, other JSON type: only meaningful for digit-string ids
         if isinstance(rid, str) and rid.lstrip("-").isdigit():
